@@ -272,7 +272,7 @@ impl HonestPeer {
         let mut per_block: Vec<(usize, Vec<usize>)> = Vec::new();
         let mut missing = Vec::new();
         for h in req.tx_hashes().into_iter() {
-            match c.tx_id_of(&h) {
+            match c.tx_id_on(&h, last_id) {
                 Some(tid)
                     if c.is_ancestor(c.txs[tid].block, last_id)
                         && c.blocks[c.txs[tid].block].num < last_num =>
